@@ -34,6 +34,7 @@ CONSTANTS
   GuardVals = {gvals}
   WithCan = {withcan}
   PropSet = {propset}
+  WithBatch = {withbatch}
   MaxStates = {maxstates}
 VIEW View
 CONSTRAINT Bound
@@ -71,7 +72,10 @@ def canon_step(step: dict) -> dict:
     gv = step.get("gv") or {}
     if isinstance(gv, list):
         gv = {}
-    return {"op": step["op"], "ev": step.get("ev", ""), "gv": dict(gv)}
+    r = {"op": step["op"], "ev": step.get("ev", ""), "gv": dict(gv)}
+    if step["op"] == "batch":
+        r["ev2"] = step.get("ev2", "")
+    return r
 
 
 def state_key(mi: int, s: dict) -> str:
@@ -99,12 +103,12 @@ def _set(xs) -> str:
 
 
 def model_check(built: List[Built], workdir: str, *, engine="sync", gvals=("T", "F"), with_can=False,
-                workers=4, timeout=1800, coverage=False, props=ALL_PROPS, max_states=10 ** 8) -> Tuple[tla.TLCResult, List[Edge]]:
+                workers=4, timeout=1800, coverage=False, props=ALL_PROPS, max_states=10 ** 8, with_batch=False) -> Tuple[tla.TLCResult, List[Edge]]:
     os.makedirs(workdir, exist_ok=True)
     tla.write_batch(os.path.join(workdir, "Batch.tla"), [b.defn for b in built])
     cfg = MC_CFG.format(engine=engine, gvals="{" + ", ".join(f'"{g}"' for g in gvals) + "}",
                         withcan="TRUE" if with_can else "FALSE", propset=_set(props),
-                        maxstates=max_states)
+                        maxstates=max_states, withbatch="TRUE" if with_batch else "FALSE")
     edges: List[Edge] = []
     res = tla.run_tlc("MCCore", cfg, workdir, workers=workers, timeout=timeout, coverage=coverage,
                       json_sink=lambda o: edges.append(Edge(o)))
